@@ -240,8 +240,20 @@ class LoopChecker:
         return None
 
     def while_loop(self, n: ast.While) -> Certificate:
+        """The certificate shapes are written for one orientation of the loop test (`a > t`, `i < len(v)`, `i != n`);
+        `t < a` is the same test, so a comparison is also tried mirrored."""
+        c = self._while_loop(n, n.test)
+        t_ = n.test
+        flip: t.Dict[t.Any, t.Any] = {ast.Eq: ast.Eq, ast.NotEq: ast.NotEq, ast.Lt: ast.Gt, ast.LtE: ast.GtE, ast.Gt: ast.Lt, ast.GtE: ast.LtE}
+        if c.kind is None and isinstance(t_, ast.Compare) and len(t_.ops) == 1 and type(t_.ops[0]) in flip:
+            m = ast.copy_location(ast.Compare(left=t_.comparators[0], ops=[flip[type(t_.ops[0])]()], comparators=[t_.left]), t_)
+            c2 = self._while_loop(n, m)
+            if c2.kind is not None:
+                return c2
+        return c
+
+    def _while_loop(self, n: ast.While, test: ast.expr) -> Certificate:
         c = Certificate(n, self.func)
-        test = n.test
         body = n.body
         assigned = _assigned_names(body)
         # ---- V-COUNT-DOWN: while a > t: ... a -= c
